@@ -231,6 +231,41 @@ def gen_case(rng, kind, hist):
         if rng.random() < 0.5:
             a, b = b, a
         return ("B", rng.choice(CMP), a, b, False)
+    if kind == "divchain":
+        # chains through math.div / `/`: ((a / b) / c) * d, a / (b / c), (a * b) / (c * d) …
+        a, b, c, d = (gen_lit(rng, hist) for _ in range(4))
+        dv = lambda x, y: ("B", "div", x, y, rng.random() < 0.7)
+        shape = rng.randrange(6)
+        if shape == 0:
+            return ("B", "mul", dv(dv(a, b), c), d, False)
+        if shape == 1:
+            return dv(a, dv(b, c))
+        if shape == 2:
+            return dv(("B", "mul", a, b, False), ("B", "mul", c, d, False))
+        if shape == 3:
+            return ("B", rng.choice(["add", "sub"]), dv(a, b), dv(c, d), False)
+        if shape == 4:
+            return ("U", rng.choice(["round", "floor", "ceil", "abs"]), dv(dv(a, b), dv(c, d)), rng.random() < 0.5)
+        return ("B", rng.choice(CMP), dv(("B", "mul", a, b, False), b), a, False)      # (a*b)/b vs a
+    if kind == "modbound":
+        # `%` with negative operands / mixed signs, dividend within δ of a multiple of the divisor
+        bs = rng.choice(["1", "3", "0.5", "0.1", "2.5", "7", "0.25", "1e-10", "12", "0.3"])
+        k = rng.choice([0, 1, 2, 3, 5, 10, 33, 1000])
+        d = Decimal(rng.choice(DELTAS))
+        v = Decimal(bs) * k + (d if rng.random() < 0.5 else -d)
+        a = ("L", plain(v if rng.random() < 0.5 else -v))
+        b = ("L", bs if rng.random() < 0.5 else "-" + bs)
+        m = ("B", "mod", a, b, False)
+        r = rng.random()
+        if r < 0.5:
+            return m
+        if r < 0.65:
+            return ("B", rng.choice(["eq", "ne"]), m, ("L", rng.choice(["0", bs, "-" + bs])), False)
+        if r < 0.8:
+            return ("B", rng.choice(["lt", "le", "gt", "ge"]), m, ("L", rng.choice(["0", bs, "-" + bs])), False)
+        if r < 0.9:
+            return ("B", "div", ("L", "1"), m, True)          # sign of a zero remainder
+        return ("B", "mod", m, ("L", rng.choice(["-" + bs, bs, "2", "-2"])), False)
     if kind == "nth":
         n = rng.choice([3, 5])
         idx = rng.choice([0, 1, 2, n - 1, n, n + 1, -1, -n, -n - 1])
@@ -277,8 +312,9 @@ CORPUS = [
     ("U", "interp", ("L", "0.99999999999"), False),
 ]
 
-SIZES = {"quick": {"lit": 9000, "str": 800, "arith": 3500, "cmp": 1500, "nth": 600},
-         "thorough": {"lit": 70000, "str": 4000, "arith": 28000, "cmp": 9000, "nth": 3000}}
+SIZES = {"quick": {"lit": 9000, "str": 800, "arith": 3500, "cmp": 1500, "nth": 600, "divchain": 1500, "modbound": 1500},
+         "thorough": {"lit": 70000, "str": 4000, "arith": 28000, "cmp": 9000, "nth": 3000, "divchain": 12000,
+                      "modbound": 12000}}
 
 
 def gen_cases(ck, tier):
@@ -504,7 +540,7 @@ def _dec(q):
     return plain(Decimal(q.numerator) / Decimal(q.denominator))
 
 
-def math_cases():
+def math_cases(rng=None):
     from fractions import Fraction as F
     out = []
     bases = ["2", "-2", "0.5", "10", "3", "-1", "1", "1.5", "-0.5", "4", "0.25", "-3", "7", "0.125", "16"]
@@ -530,11 +566,27 @@ def math_cases():
     out += [("math.log(1)", "0"), ("math.log(8, 2)", "3"), ("math.log(100, 10)", "2"), ("math.log(0.5, 2)", "-1"),
             ("math.hypot(3, 4)", "5"), ("math.hypot(5, 12)", "13"), ("math.hypot(0.3, 0.4)", "0.5"),
             ("math.abs(-2.5)", "2.5"), ("math.percentage(0.5) == 50%", None)]
+    if rng is not None:
+        # random exactly-representable powers and perfect squares
+        n = 0
+        while n < 400:
+            b = F(rng.randrange(-64, 65), rng.choice([1, 2, 4, 8, 16]))
+            e = rng.randrange(-12, 25)
+            q = _pow_exact(b, e)
+            if b == 0 or q is None or not _is_double(q) or abs(q) >= F(10) ** 30 or (q != 0 and abs(q) < F(1, 10 ** 30)):
+                continue
+            out.append((f"math.pow({_dec(b)}, {e})", _dec(q)))
+            n += 1
+        for _ in range(300):
+            r = F(rng.randrange(0, 1 << rng.choice([4, 10, 20, 26])), rng.choice([1, 2, 16, 1024, 1 << 20]))
+            out.append((f"math.sqrt({_dec(r * r)})", _dec(r)))
+            if rng.random() < 0.3:
+                out.append((f"math.pow({_dec(r * r)}, 0.5)", _dec(r)))
     return [c for c in out if c[1] is not None]
 
 
 def evaluate_math(ck, pool):
-    cases = math_cases()
+    cases = math_cases(ck.rng)
     lines = []
     for _, val in cases:
         lines += [f"num eval e L{val}", f"num eval c L{val}"]
